@@ -294,6 +294,123 @@ func ruleColSam(c *Ctx, r *Rep, tier string) {
 	}
 }
 
+// ruleAbsentForms (ABSENT-FORMS): the special spellings. RNEXT is "=" exactly
+// when the mate reference is set and *is* the read's reference (pointer
+// identity, evaluated over all identity patterns of nil/A/B – an id comparison
+// equates all unowned references, whose id is -1); the CIGAR/sequence
+// consistency test is applied only when a sequence is present, because the
+// writer prints "*" for an absent sequence whatever the CIGAR. Added after a
+// second, blind round of seeds missed both.
+func ruleAbsentForms(c *Ctx, r *Rep, tier string) {
+	rule := "ABSENT-FORMS"
+	fm := c.Func("sam", "formatMate")
+	r.Instance(rule, 1)
+	{
+		why := ""
+		n := 0
+		for _, ref := range []int64{0, 1, 2} {
+			for _, mate := range []int64{0, 1, 2} {
+				n++
+				sr := symExec(fm, map[string]int64{fm.Params[0].Name(): ref, fm.Params[1].Name(): mate})
+				if sr.Undec != "" {
+					why = "whether RNEXT is written as = depends on " + sr.Undec + ", not on the identity of the two references alone (ids are -1 for every reference that is not in a header, so an id comparison equates them)"
+					break
+				}
+				want := mate != 0 && ref == mate
+				got := len(sr.RetKeys) == 1 && sr.RetKeys[0] == `"="`
+				if got != want {
+					why += fmt.Sprintf(" ref=%d mate=%d (0 = nil): '=' written: %v, want %v;", ref, mate, got, want)
+				}
+				if !want && len(sr.RetKeys) == 1 && sr.RetKeys[0] != fm.Params[1].Name()+".Name()" && !got {
+					why += " the mate is written as " + sr.RetKeys[0] + ", not mate.Name();"
+				}
+			}
+		}
+		r.Check(why == "", rule, "sam.formatMate#identity", c.Pos(fm.Pos()), fmt.Sprintf("%d identity patterns: '=' iff mate != nil and mate is ref; otherwise mate.Name()", n), why)
+	}
+	// the parser side of "=": a store MateRef = Ref under the "=" / same-name test
+	rfn := c.Func("sam", "(*Record).UnmarshalSAM")
+	r.Instance(rule, 1)
+	{
+		ok := false
+		allInstrs(rfn, func(ins ssa.Instruction) {
+			if st, isSt := ins.(*ssa.Store); isSt {
+				if fa, isFa := st.Addr.(*ssa.FieldAddr); isFa && fieldVarOfAddr(fa).Name() == "MateRef" {
+					if f, _ := loadedField(st.Val); f != nil && f.Name() == "Ref" {
+						ok = true
+					}
+				}
+			}
+		})
+		r.Check(ok, rule, "sam.(*Record).UnmarshalSAM#mate-equals", c.Pos(rfn.Pos()), "'=' (or the same name) makes MateRef the same Reference as Ref", "the parser never makes MateRef identical to Ref: a line written with '=' does not come back with ref == mate")
+	}
+	// IsValid only with a sequence
+	r.Instance(rule, 1)
+	{
+		var split *ssa.Call
+		allInstrs(rfn, func(ins ssa.Instruction) {
+			if call, ok := ins.(*ssa.Call); ok && calleeFullName(&call.Call) == "bytes.Split" && split == nil {
+				split = call
+			}
+		})
+		isSplit := func(v ssa.Value) bool { return split != nil && v == ssa.Value(split) }
+		// the edge "f[9] is not *"
+		type edge struct {
+			b *ssa.BasicBlock
+			k int
+		}
+		var present []edge
+		for _, b := range rfn.Blocks {
+			iff := ifOf(b)
+			if iff == nil {
+				continue
+			}
+			cond := iff.Cond
+			neg := false
+			if u, ok := cond.(*ssa.UnOp); ok && u.Op == token.NOT {
+				cond, neg = u.X, true
+			}
+			call, ok := cond.(*ssa.Call)
+			if !ok || calleeFullName(&call.Call) != "bytes.Equal" || columnOf(call.Call.Args[0], isSplit, 0) != 9 {
+				continue
+			}
+			if !strings.Contains(symKey(call.Call.Args[1]), "42") && !strings.Contains(symKey(call.Call.Args[1]), "slicelit") {
+				continue
+			}
+			k := 1 // Equal false → sequence present
+			if neg {
+				k = 0
+			}
+			present = append(present, edge{b, k})
+		}
+		why := ""
+		nv := 0
+		allInstrs(rfn, func(ins ssa.Instruction) {
+			call, ok := ins.(*ssa.Call)
+			if !ok {
+				return
+			}
+			if g := staticCallee(&call.Call); g == nil || g.Name() != "IsValid" {
+				return
+			}
+			nv++
+			dom := false
+			for _, e := range present {
+				if dominatedByEdge(rfn, e.b, e.k, call.Block()) {
+					dom = true
+				}
+			}
+			if !dom {
+				why = fmt.Sprintf("the CIGAR/sequence length test at %s also runs when SEQ is *: records without a stored sequence but with a query-consuming CIGAR (secondary alignments), which MarshalSAM and BAM produce, are refused", c.Pos(call.Pos()))
+			}
+		})
+		if len(present) == 0 {
+			why = "the test 'SEQ is *' was not found"
+		}
+		r.Check(why == "", rule, "sam.(*Record).UnmarshalSAM#cigar-check-needs-seq", c.Pos(rfn.Pos()), fmt.Sprintf("%d CIGAR/sequence consistency test(s), all under 'SEQ present'", nv), why)
+	}
+}
+
 // ---- FMT-STRINGER ---------------------------------------------------------------------------------------
 
 func hasStringMethod(t types.Type) bool {
@@ -800,6 +917,7 @@ func init() {
 		ID: "C06", Title: "SAM text round trip, and SAM and BAM views of a record agree", Level: "other",
 		Rules: []RuleDef{
 			{Name: "COL-SAM", What: "MarshalSAM's eleven columns and aux tail are parsed by UnmarshalSAM into the fields they were written from; ±1 for the 1-based positions; Phred+33 and the 0xff filler; 11-column guard; base-0 flags", Floor: 18, Run: ruleColSam},
+			{Name: "ABSENT-FORMS", What: "RNEXT '=' iff the mate reference is the read's reference (all identity patterns); the CIGAR/sequence test only with a sequence present (added after a blind second seed round)", Floor: 3, Run: ruleAbsentForms},
 			{Name: "FMT-STRINGER", What: "no numeric fmt verb is applied to a value with a String method in package sam", Floor: 5, Run: ruleFmtStringer},
 			{Name: "AUX-TYPED-VIEW", What: "aux text formatting prints only the tag, the type letters and the typed Value(), never raw payload bytes", Floor: 2, Run: ruleAuxTypedView},
 			{Name: "TAB-AUXTEXT", What: "ParseAux's type letters = the formatter's kinds; array subtypes and their widths/signedness = the specification's; CIGAR letters agree between format and parse tables", Floor: 10, Run: ruleTabAuxText},
